@@ -58,11 +58,13 @@ FULL_POOL = {'empty', 'class', 'token', 'wb', 'alt', 'cat', 'quant', 'group', 'a
 def compose_configs(tier, seed):
     wins = UV.windows(tier, seed)
     if tier == 'quick':
-        return [spine_config('depth1-fullpool', wins[:3], 1, ALL_OPS, FULL_POOL | {'focusall'}, semlen=2),
-                spine_config('depth2-leaves', wins[:1], 2, ALL_OPS - {'enclose'}, set(), quants=QUANTS_TWO, names=())]
+        return [spine_config('depth1-fullpool', wins[:4], 1, ALL_OPS, FULL_POOL | {'focusall'}, semlen=2),
+                spine_config('depth2-leaves', wins[:1], 2, ALL_OPS - {'enclose'}, set(), quants=QUANTS_TWO, names=())] + \
+            random_term_configs(tier, seed)
     return [spine_config('depth1-fullpool', wins, 1, ALL_OPS | {'cond'}, FULL_POOL | {'focusall', 'lit3'}, semlen=2),
-            spine_config('depth2-fullpool', wins[:4], 2, ALL_OPS, FULL_POOL),
-            spine_config('depth3-leaves', wins[:2], 3, ALL_OPS - {'enclose'}, set(), quants=QUANTS_TWO, names=())]
+            spine_config('depth2-fullpool', wins[:5], 2, ALL_OPS, FULL_POOL),
+            spine_config('depth3-leaves', wins[:2], 3, ALL_OPS - {'enclose'}, set(), quants=QUANTS_TWO, names=())] + \
+        random_term_configs(tier, seed)
 
 
 # ----------------------------------------------------------------------------- C01
@@ -230,6 +232,9 @@ def random_term_configs(tier, seed, n_quick=4000, n_thorough=60000):
     return [terms_config('random-programs-%d' % i, terms[i:i + 20000]) for i in range(0, len(terms), 20000)]
 
 
+RANDOM_PROGRAMS_FOR = {'C01', 'C03', 'C04', 'C05', 'C08', 'C09', 'C10'}      # C02 lists them in compose_configs
+
+
 def generic(prop, facets, rule, configs_fn, args_tier=None, seeds=(0,), mode='rr', extra_assume=(), params=None):
     tier, seed = tier_and_seed(args_tier)
     t0 = time.time()
@@ -238,6 +243,8 @@ def generic(prop, facets, rule, configs_fn, args_tier=None, seeds=(0,), mode='rr
     if callable(seeds):
         seeds = seeds(tier, seed)
     cfgs = configs_fn(tier, seed)
+    if prop in RANDOM_PROGRAMS_FOR:
+        cfgs = cfgs + random_term_configs(tier, seed)
     if prop in SEM_INV:
         cfgs = [sem_config(prop, tier)] + cfgs
     res = run_generated(cfgs, 'harness.judge_compose.judge', p, seeds=seeds, mode=mode)
